@@ -205,6 +205,15 @@ func genRV(t *tape.Tape, depth, maxDepth int) *rv {
 		}
 	default:
 		n := t.Choose(5)
+		if depth == 0 && t.Choose(60) == 59 {
+			// a wide array (a long MSET / SADD / RPUSH): element counts around 1024 and 65536
+			n = []int{1023, 1024, 1025, 2048, 4097, 65535, 65537}[t.Choose(7)]
+			v := &rv{kind: '*', items: make([]*rv, 0, n)}
+			for i := 0; i < n; i++ {
+				v.items = append(v.items, &rv{kind: '$', text: []byte(strconv.Itoa(i))})
+			}
+			return v
+		}
 		v := &rv{kind: '*', items: []*rv{}}
 		for i := 0; i < n; i++ {
 			v.items = append(v.items, genRV(t, depth+1, maxDepth))
